@@ -323,3 +323,33 @@ Lemma routes_checker_sound_l : forall rs,
   /\ (forall p hn, In (p, hn) required ->
         exists r, dispatch rs p = Some r /\ hname r = hn /\ wrapped r = true).
 Proof. intros rs H. split; [exact (routes_protected_l rs H) | exact (routes_required_l rs H)]. Qed.
+
+(* ------------------------------------------------------------------ *)
+(* handler chain *)
+Lemma wrapper_ok_keeps : forall w r r' f,
+  wrapper_ok w = true -> wrapper_sem w r r' -> In f authn_reads -> r' f = r f.
+Proof.
+  intros w r r' f Hok Hs Hin. unfold wrapper_ok in Hok. rewrite forallb_forall in Hok.
+  assert (Hstar : mem "*"%string (writes_before w) = false).
+  { destruct (mem "*"%string (writes_before w)) eqn:E; [|reflexivity].
+    apply mem_in in E. specialize (Hok _ E). apply andb_true_iff in Hok. destruct Hok as [_ H].
+    rewrite String.eqb_refl in H. discriminate. }
+  destruct Hs as [Hs | [_ Hs]]; [congruence|].
+  apply Hs. destruct (mem f (writes_before w)) eqn:E; [|reflexivity].
+  apply mem_in in E. specialize (Hok _ E). apply andb_true_iff in Hok. destruct Hok as [H _].
+  apply negb_true_iff in H. apply mem_in in Hin. congruence.
+Qed.
+
+(* if the chain passes the check, the request that reaches the mux (and hence
+   Authn) has the same peer address and the same headers (cookies) as the
+   request the server received *)
+Lemma chain_checker_sound_l : forall ws r r',
+  check_chain ws = true -> chain_sem ws r r' ->
+  r' "RemoteAddr"%string = r "RemoteAddr"%string /\ r' "Header"%string = r "Header"%string.
+Proof.
+  induction ws as [|w ws IH]; intros r r' Hc Hs; simpl in *.
+  - subst. split; reflexivity.
+  - apply andb_true_iff in Hc. destruct Hc as [Hw Hrest]. destruct Hs as [m [Hwm Hm]].
+    destruct (IH _ _ Hrest Hm) as [A B].
+    rewrite A, B. split; apply (wrapper_ok_keeps w r m _ Hw Hwm); simpl; auto.
+Qed.
